@@ -443,6 +443,17 @@ func (x *run) checkC12(failing map[int]bool) *Failure {
 	for _, g := range groups {
 		what := fmt.Sprintf("%s(s%d)", g.kind, g.scope)
 		closed := x.closesIn(g.from, g.to)
+		if g.kind == "close" {
+			// only instances owned by the subtree being closed: other scopes may be closing concurrently (context watchers)
+			sub := x.subtreeOf(g.scope)
+			kept := closed[:0:0]
+			for _, e := range closed {
+				if x.M.Regs[e.Reg].Life != kit.Singleton && sub[e.ScopeTag] {
+					kept = append(kept, e)
+				}
+			}
+			closed = kept
+		}
 		anyFail := false
 		for _, e := range closed {
 			if failing[e.Serial] {
@@ -505,7 +516,25 @@ func (x *run) checkC12(failing map[int]bool) *Failure {
 				return fail("C12", "reports", "not-disposal-error", "%s returned %T (%v), not a DisposalError", what, g.firstErr, firstLine(g.firstErr))
 			}
 			if g.errs > 0 && !anyFail {
-				return fail("C12", "reports", "spurious", "%s returned %v although no Close method failed", what, firstLine(g.firstErr))
+				// a close started by a context watcher just before this call may still be in
+				// progress; the owner waits for it and reports its failures too
+				wide := false
+				for _, co := range obs {
+					if co.Kind != "cancel" || co.StartSeq > g.from {
+						continue
+					}
+					if g.kind == "close" && !x.subtreeOf(co.Scope)[g.scope] && !x.subtreeOf(g.scope)[co.Scope] {
+						continue
+					}
+					for _, e := range x.closesIn(co.StartSeq, g.to) {
+						if failing[e.Serial] {
+							wide = true
+						}
+					}
+				}
+				if !wide {
+					return fail("C12", "reports", "spurious", "%s returned %v although no Close method failed", what, firstLine(g.firstErr))
+				}
 			}
 			if g.errs == 0 && anyFail && !byCancel {
 				depth := "own"
@@ -749,7 +778,7 @@ func TestC13Closed(t *testing.T) {
 				}
 				time.Sleep(50 * time.Microsecond)
 			}
-			if c := rec.S.Context().Err(); c == nil {
+			if !waitFor(func() bool { return rec.S.Context().Err() != nil }, 10*time.Second) {
 				rt.Fatalf("VIOLATION C13/cancel-closes [ctx]: scope s%d is disposed after cancellation but its context is not cancelled\n%s", tag, x.describe())
 			}
 		}
